@@ -305,6 +305,19 @@ RULES = [
     ('break-outside-loop', 'repeat 2 begin set "Candle" begin break end end'),
     ('assign-to-macro', 'define m 5 assign m 6'),
     ('redefine-routine', 'define f begin print 1 end define f begin print 2 end'),
+    ('redefine-macro', 'define m 5 define m 6'),
+    ('redefine-macro', 'define m 5 define m 5'),
+    ('redefine-macro', 'define m 5 define k m define m k'),
+    ('redefine-macro', 'define m 5 hue m define m 6 hue m'),
+    ('redefine-macro', 'define m "a" define m "b"'),
+    ('redefine-macro', 'define m 8:00 define m 9:00'),
+    ('redefine-macro', 'define f begin define m 1 end define m 2'),
+    ('redefine-macro', 'define m 2 define f begin define m 1 end'),
+    ('redefine-macro', 'define m 5 define m begin print 1 end'),
+    ('redefine-macro', 'define m 5 define m with a begin print a end'),
+    ('redefine-routine', 'define r begin print 1 end r define r 5'),
+    ('redefine-routine', 'define r begin print 1 end r define r 5 define r begin print 2 end r'),
+    ('redefine-routine', 'define round 5'),
     # … a built-in routine is a routine: its name cannot be defined again either
     ('redefine-routine', 'define round with x begin return {x * 100} end'),
     ('redefine-routine', 'print [round 2.6] define round with x begin return {x * 100} end print [round 2.6]'),
